@@ -11,7 +11,7 @@ CONSTANTS
   Chunk = 1
   MaxFP = 0
   BatchPool <- MC_BatchPool3
-  MaxCrash = 1
+  MaxCrash = 0
   ExportDepth = 0
   ExportDir <- MC_ExportDir
 INVARIANTS IndexConsistent RefinesQueries NoStaleEntry RebuildSafe
